@@ -20,7 +20,7 @@ theorem run_panic (o : Opts) (st : St) (k : Nat) (ls : List Str) (c : PanicClass
     | error => rw [hs] at h; simp at h
     | panic c' =>
       -- the only panicking branch of `step` is guarded by `¬ allowInvalidIndents`
-      unfold step unparsable at hs
+      unfold step unparsable place at hs
       cases hi : o.allowInvalidIndents
       · rfl
       · simp only [hi] at hs
@@ -89,7 +89,7 @@ theorem error_line_cause (o : Opts) (st : St) (l : Str) (h : step o st l = .erro
     (((parseLine l = none ∨ ∃ pl, parseLine l = some pl ∧ isRoleTag pl.tag = true ∧ st.seenFam = false) ∧
         (o.allowMultiLine = false ∨ st.stack = [])) ∨
      (∃ pl, parseLine l = some pl ∧ pl.level ≠ 0 ∧ st.stack = [] ∧ o.allowInvalidIndents = true)) := by
-  unfold step at h
+  unfold step place at h
   split at h
   · simp at h
   · rename_i hne
@@ -122,7 +122,7 @@ theorem error_line_cause (o : Opts) (st : St) (l : Str) (h : step o st l = .erro
 
 /-! Non-vacuity (tests on literals): the three outcome classes occur. -/
 example : decode ⟨false, false⟩ [49, 32, 78] = .panic .indentTooLarge := by
-  simp [decode, stripBOM, BOM, List.isPrefixOf, splitLines, splitLines.go, run, step, parseLine, parsePtr,
+  simp [decode, stripBOM, BOM, List.isPrefixOf, splitLines, splitLines.go, run, step, place, parseLine, parsePtr,
     afterTag, isDigit, isWord, SP, AT, LF, CR, decToNat, isRoleTag, tHUSB, tWIFE, tCHIL]
 
 end Gedcom.C03
